@@ -245,6 +245,14 @@ def toList (items : Nat → PItem) (self : Bool) : Nat → Nxt → Option (List 
 
 def order (t : PTable) : Option (List Nat) := toList t.items t.self t.size t.begin
 
+/-- backward iteration `--it` from `end()`: the items from `last` following `prev` until null -/
+def toListBack (items : Nat → PItem) : Nat → Option Nat → Option (List Nat)
+  | _, none => some []
+  | 0, some _ => none
+  | f + 1, some i => (toListBack items f (items i).prev).map (i :: ·)
+
+def orderBack (t : PTable) : Option (List Nat) := toListBack t.items t.size t.endPrev
+
 def isEmpty (t : PTable) : Bool := t.endPrev.isNone
 
 /-- loop of `operator==`: `for(a = _begin.item, b = other._begin.item; a != &endItem; a = a->next, b = b->next)` -/
